@@ -1,7 +1,7 @@
 (* C14 -- boolean comparison functions the correspondence harness (harness/props/c14.py) evaluates by vm_compute:
    each takes a model input and what the implementation returned for it. No theorems here. *)
 From Coq Require Import QArith Qabs Qminmax List Bool.
-From PL Require Import Stress.Collective Stress.Histogram Stress.Rebin.
+From PL Require Import Stress.Collective Stress.Histogram Stress.Rebin Stress.RebinND.
 Import ListNotations.
 Open Scope Q_scope.
 
@@ -63,3 +63,8 @@ Definition check_binning (b : list ivl) (accepted : bool) : bool := Bool.eqb (bi
 Definition check_combine (hs : list (list (key * Q))) (out : list (key * Q)) : bool :=
   let m := combine_sum hs in
   (length m =? length out)%nat && forallb (fun kv => Qclose (lookup (fst kv) m) (snd kv)) out.
+
+(* rebin_histogram on a MultiIndex histogram (per value of an extra non-interval level): every class the implementation returns,
+   keyed by the intervals of the levels in the source's level order (looked up BY NAME by the harness), holds the model's content *)
+Definition check_rebin_nd (h out : histn) : bool :=
+  forallb (fun kv => Qclose (aggregate_nd h (fst kv)) (snd kv)) out.
